@@ -76,10 +76,10 @@ class ChannelItem(EFLRItem, DimensionedItem):
         self.minimum_value = NumericAttribute('minimum_value', representation_code=RepC.FDOUBL, multivalued=True)
         self.maximum_value = NumericAttribute('maximum_value', representation_code=RepC.FDOUBL, multivalued=True)
 
-        super().__init__(name, parent=parent, **kwargs)
-
         self._dataset_name: Union[str, None] = dataset_name
         self._set_cast_dtype(cast_dtype)
+
+        super().__init__(name, parent=parent, **kwargs)
 
     @property
     def dataset_name(self) -> str:
